@@ -290,11 +290,12 @@ def opt_map(t):
 
 
 def is_max_const(t):
-    return M.is_const(t) and (t[2] or '').endswith('MAX')
+    # by VALUE: `isize::MAX`, a named constant initialised with it and the literal are the same thing
+    return M.is_const(t) and (t[1] == 9223372036854775807 or (not isinstance(t[1], int) and (t[2] or '').endswith('MAX')))
 
 
 def is_min_const(t):
-    return M.is_const(t) and (t[2] or '').endswith('MIN')
+    return M.is_const(t) and (t[1] == -9223372036854775808 or (not isinstance(t[1], int) and (t[2] or '').endswith('MIN')))
 
 
 # ---------------------------------------------------------------------------------------------------------------
